@@ -212,9 +212,7 @@ def run(tier, seed):
             t0 = time.time()
             case = {"long": what, "len": len(s)}
             try:
-                import signal
-                signal.signal(signal.SIGALRM, engine._alarm)
-                signal.setitimer(signal.ITIMER_REAL, 60.0)
+                engine.arm(60.0)
                 try:
                     p = svg.Path()
                     try:
@@ -227,9 +225,9 @@ def run(tier, seed):
                     except BaseException as e:
                         r = [{"clause": "Totality", "detail": "long input (%s): %s" % (what, type(e).__name__), "exc": type(e).__name__}]
                 finally:
-                    signal.setitimer(signal.ITIMER_REAL, 0)
+                    engine.disarm()
             except engine.CaseTimeout:
-                r = [{"clause": "Timeout", "detail": "long input (%s, %d chars) not parsed within 60 s" % (what, len(s))}]
+                r = [{"clause": "Timeout", "detail": "long input (%s, %d chars) not parsed within 60 s of CPU time" % (what, len(s))}]
             dt = time.time() - t0
             timing.append({"what": what, "chars": len(s), "seconds": round(dt, 3)})
             run.record(case, {"dis": r, "nontrivial": True, "class": "long", "checked": ["Prompt"]}, key="long:" + what)
